@@ -34,6 +34,7 @@ class VerusResult:
         self.ok = False
         self.failures = []  # dict(message, clause, fn, gen_line, kind, rendered)
         self.undecided = []  # strings (reasons)
+        self.soft = []       # panic-freedom failures outside named clauses: undecided for the properties of that function only
         self.verified = 0
         self.errors = 0
         self.wall_s = 0.0
@@ -103,10 +104,9 @@ def run_verus(gen, out_path, seed=0, rlimit=None, extra=None, timeout=900):
                 f = map_failure(gen, d)
                 if f['clause'] is None and is_panic_freedom_only(d, os.path.basename(out_path)):
                     # overflow, division by zero, or a precondition of a std/vstd function (unwrap, indexing ..):
-                    # panic-freedom of changed code is not one of the properties -> undecided for that function
-                    res.undecided.append('verus could not show panic-freedom (not a listed property) in %s: %s%s' % (f['fn'], msg, span_str(d)))
-                    if f['fn']:
-                        res.rejected_fns[f['fn']] = 'panic-freedom not shown: ' + msg[:120]
+                    # panic-freedom of changed code is not one of the properties -> undecided for the properties of that function
+                    f['reason'] = 'verus could not show panic-freedom (not a listed property) in %s: %s%s' % (f['fn'], msg, span_str(d))
+                    res.soft.append(f)
                 else:
                     res.failures.append(f)
             else:
